@@ -1,0 +1,29 @@
+//go:build verif
+
+package kinesis
+
+import (
+	"math/big"
+	"time"
+)
+
+// VerifManualTicker replaces the shard discovery ticker of a started splitter by a channel owned by the
+// verification harness, so that discovery ticks of the real processShardAssignment loop happen exactly when the
+// harness sends one (build tag verif only). The loop is woken once so that it selects on the new channel.
+func (s *SourceSplitter) VerifManualTicker() chan<- time.Time {
+	ch := make(chan time.Time)
+	if s.shardDiscoveryTicker != nil {
+		s.shardDiscoveryTicker.Stop()
+	}
+	s.shardDiscoveryTicker = &time.Ticker{C: ch}
+	select {
+	case s.splitsDidFinish <- struct{}{}:
+	default:
+	}
+	return ch
+}
+
+// VerifUniformlyAssignShard exposes uniformlyAssignShard.
+func VerifUniformlyAssignShard(start, end *big.Int, numRunners int) int {
+	return uniformlyAssignShard(HashKeyRange{Start: start, End: end}, numRunners)
+}
